@@ -171,6 +171,9 @@ def rule_b(ctx):
             'the head insertion is reserved for the SETUP frame queued by connect()' if okc else
             'the head insertion is also used by %s: frames queued through it overtake everything already queued' %
             sorted(c.short for c in callers if c.name != 'connect'))
+    from . import plumbing
+    plumbing.rule_priority_insert(ctx, 'C05.b')
+    plumbing.rule_send_helpers(ctx, 'C05.b')
     # every enqueue site of the send queue outside the picker/priority path is a plain tail insertion
     n_sites = 0
     bad = []
